@@ -12,7 +12,7 @@ ENGINE = {"C01": "eng_eval", "C02": "eng_eval", "C14": "eng_eval", "C17": "eng_e
           "C03": "eng_diff", "C04": "eng_diff", "C07": "eng_diff",
           "C08": "eng_reduce", "C11": "eng_reduce", "C05": "eng_sym",
           "C06": "eng_api", "C09": "eng_api", "C10": "eng_api",
-          "C12": "eng_algebra", "C13": "eng_algebra", "C15": "eng_algebra", "C16": "eng_algebra"}
+          "C12": "eng_algebra", "C13": "eng_algebra", "C15": "eng_algebra", "C16": "eng_algebra", "C18": "eng_det"}
 
 
 def main(argv):
